@@ -2,6 +2,7 @@ package rules
 
 import (
 	"fmt"
+	"go/constant"
 	"go/token"
 	"go/types"
 	"sort"
@@ -157,6 +158,49 @@ func C10(c *core.Ctx) {
 				}
 				c.Check("R1", "conv:"+name+":"+dpath, d.Pos(), ok && got == spath, fmt.Sprintf("%s <- %s (must come from the same source report's %s)", dpath, got, spath))
 			}
+			// every source report of the batch is converted AND kept: the loop over the source reports has no
+			// path that skips the append / map entry of the converted value (errors leave by return only
+			// before the loop; a value-dependent `continue` would drop reports, e.g. all-zero counters)
+			var keep ssa.Instruction
+			for _, r := range *d.Referrers() {
+				ld, ok := r.(*ssa.UnOp)
+				if !ok || ld.Op != token.MUL {
+					continue
+				}
+				for _, u := range *ld.Referrers() {
+					switch y := u.(type) {
+					case *ssa.Store: // element of the variadic slice of append(list, usar)
+						if ia, ok := y.Addr.(*ssa.IndexAddr); ok {
+							if al, ok := ia.X.(*ssa.Alloc); ok {
+								for _, r3 := range *al.Referrers() {
+									if sl, ok := r3.(*ssa.Slice); ok {
+										for _, r4 := range *sl.Referrers() {
+											if cl, ok := r4.(*ssa.Call); ok {
+												if bi, ok := cl.Call.Value.(*ssa.Builtin); ok && bi.Name() == "append" {
+													keep = cl
+												}
+											}
+										}
+									}
+								}
+							}
+						}
+					case *ssa.MapUpdate:
+						keep = y
+					}
+				}
+			}
+			hdr := loopHeaderOf(d)
+			if keep != nil && hdr != d.Block() || (keep != nil && inAnyLoop(d)) {
+				skips, where := iterationSkips(loopHeaderOf(keep), keep.Block())
+				pos := keep.Pos()
+				if where != nil {
+					pos = where.Instrs[len(where.Instrs)-1].Pos()
+				}
+				c.Check("R1", "conv-total:"+name, pos, !skips, "every report of the batch is converted and kept (no iteration of the conversion loop skips it)")
+			} else if keep == nil {
+				c.Check("R1", "conv-total:"+name, d.Pos(), false, "the converted report is not appended to a result list")
+			}
 			// nothing else is filled from a wrong place
 			for dpath, got := range tbl {
 				if _, known := usarFieldMap[dpath]; !known {
@@ -246,6 +290,34 @@ func C10(c *core.Ctx) {
 				got = core.Callee(cl).Name()
 			}
 			c.Check("R3", fmt.Sprintf("profile:%s:%s", m, f.Name()), st.Pos(), okName, fmt.Sprintf("profile flag %s is taken from %s() (must be Has%s())", f.Name(), got, f.Name()))
+			if m == "UpdateURR" && ok {
+				// an Update URR changes the stored profile only from the child IE that carries the flag, and only
+				// when that IE is present (the accessors of the grouped IE answer false for an absent child, which
+				// would silently reset the profile and strip the measurement IEs from every later report)
+				want := map[string]string{"MeasureMethod": "MeasurementMethod", "MeasureInformation": "MeasurementInformation"}
+				owner := ""
+				if pt, isP := fa.X.Type().(*types.Pointer); isP {
+					if nn, isN := pt.Elem().(*types.Named); isN {
+						owner = want[nn.Obj().Name()]
+					}
+				}
+				recv := core.CallRecv(cl)
+				present := false
+				if k := p.Const(core.PkgIE, owner); k != nil && recv != nil {
+					kv, _ := constant.Int64Val(constant.ToInt(k.Val()))
+					for _, ft := range core.FactsAt(st.Block()) {
+						cmp, isCmp := ft.V.(*ssa.BinOp)
+						if !isCmp || cmp.Op != token.EQL || !ft.True {
+							continue
+						}
+						if cv, isK := core.ConstInt(cmp.Y); isK && cv == kv && core.IsPath(cmp.X, recv, "Type") {
+							present = true
+						}
+					}
+				}
+				c.Check("R3", fmt.Sprintf("profile-update-if-present:%s", f.Name()), st.Pos(), present,
+					"in Update URR the stored flag "+f.Name()+" changes only under `child.Type == ie."+owner+"`, from that child")
+			}
 		})
 		c.Floor("R3", n, 8, "profile flags set in Sess."+m)
 	}
@@ -355,6 +427,7 @@ func C10(c *core.Ctx) {
 		c.Check("R5", "batch-isolation:"+e.fn, where, !bad, "nothing inside the emission loop leaves it: an unknown URR skips one report and the rest of the batch is still emitted")
 	}
 	freshReportLists(c, "R5")
+	losslessPost(c, "R5", p.SSAFn(p.Method(pkgPfcp, "PfcpServer", "NotifySessReport")), p.Field(pkgPfcp, "PfcpServer", "srCh"), "a report notification from the data plane")
 }
 
 func isPtrTo(t types.Type, n *types.Named) bool {
